@@ -20,14 +20,15 @@ class Floor_rto(Lemma):
     value c1 * 2^E, c1 = rto_c(D, S), has the same integer part as y and is an integer iff y is.
     Hence floor(RTO(y)) = floor(y) -- which needs the digits down to the units (n = -1) to be computed.
     """
-    params = {'D': 'int', 'S': 'bool', 'K': 'int', 'H': 'int'}
+    params = {'D': 'int', 'S': 'bool', 'K': 'int', 'H': 'int', 'neg': 'bool', 'd0': 'int', 's0': 'bool'}
     properties = ['C02']
     options = {'chain': True}
 
-    def pre(self, D, S, K, H):
-        return {'D': D >= 0, 'K': K == 4 * H and H >= 1}
+    def pre(self, D, S, K, H, neg, d0, s0):
+        return {'D': D >= 0, 'K': K == 4 * H and H >= 1,
+                'units': d0 == fdiv(D, K) and s0 == (S or fmod(D, K) != 0)}
 
-    def post(self, D, S, K, H):
+    def post(self, D, S, K, H, neg, d0, s0):
         c1 = rto_c(D, S)
         q = fdiv(D, K)
         r = fmod(D, K)
@@ -39,6 +40,8 @@ class Floor_rto(Lemma):
             'integer_part': fdiv(c1, K) == q,
             'remainder': fmod(c1, K) == r + (c1 - D),
             'fraction_iff': (fmod(c1, K) != 0) == (S or r != 0),
+            # |floor| of the signed round-to-odd value == |floor| of the signed exact value
+            'floor_mag': fdiv(c1, K) + b2i(neg and fmod(c1, K) != 0) == ite(neg, d0 + b2i(s0), d0),
         }
 
 
@@ -102,7 +105,8 @@ class MPFREngine_mod_core(Contract):
         yq = app_id_floats(FID['gmpy2.div'], (x, y))
         E = rto_exp(y_e(yq), None, -1)
         if gen:
-            apply_lemma('Floor_rto', D=y_dig(yq, E), S=y_stk(yq, E), K=pow2(-E), H=pow2(-E - 2))
+            apply_lemma('Floor_rto', D=y_dig(yq, E), S=y_stk(yq, E), K=pow2(-E), H=pow2(-E - 2),
+                        neg=x._real._s != y._real._s, d0=y_dig(yq, 0), s0=y_stk(yq, 0))
         d0 = y_dig(yq, 0)
         s0 = y_stk(yq, 0)
         qneg = x._real._s != y._real._s
